@@ -18,6 +18,9 @@ from typing import Optional
 from .fs import SimFS
 
 
+SIM_NAMES = ("doc.json", "patch.json", "expr.txt", "out.json")
+
+
 class ProcResult:
     __slots__ = ("status", "stdout", "stderr", "escaped")
 
@@ -29,10 +32,27 @@ class ProcResult:
 
 
 def run_cli(argv: List[str], stdin_bytes: bytes, fs: SimFS) -> ProcResult:
-    """One simulated ``python -m jsonpath <argv>`` invocation."""
-    import jsonpath.cli as cli
+    """One simulated ``python -m jsonpath <argv>`` invocation.
+
+    The package's ``__main__`` module is executed the way ``python -m`` would (``runpy``), so the stub does
+    not depend on *how* the entry point turns its outcome into an exit status (``sys.exit(1)`` inside a
+    handler, or ``sys.exit(main())`` at the top).  Files are reachable through ``argparse.FileType`` and
+    through ``open`` / ``io.open`` alike: names that exist in (or are created in) the simulated file
+    system are routed there, everything else goes to the real one."""
+    import builtins
+    import runpy
 
     saved = (sys.argv, sys.stdin, sys.stdout, sys.stderr)
+    real_open, real_io_open = builtins.open, io.open
+
+    def routed_open(file: Any, mode: str = "r", *a: Any, **k: Any) -> Any:
+        name = file if isinstance(file, str) else (os.fspath(file) if hasattr(file, "__fspath__") else None)
+        if isinstance(name, str):
+            base = os.path.basename(name)
+            if name in fs.files or base in fs.files or base in SIM_NAMES:
+                return fs.open(base if base in fs.files or base in SIM_NAMES else name, mode, *a, **k)
+        return real_open(file, mode, *a, **k)
+
     had_open = "open" in argparse.__dict__
     old_open = argparse.__dict__.get("open")
     out_b = io.BytesIO()
@@ -47,8 +67,10 @@ def run_cli(argv: List[str], stdin_bytes: bytes, fs: SimFS) -> ProcResult:
         sys.stdout = stdout
         sys.stderr = err_s
         argparse.open = fs.open  # type: ignore[attr-defined]
+        builtins.open = routed_open  # type: ignore[assignment]
+        io.open = routed_open  # type: ignore[assignment]
         try:
-            cli.main()
+            runpy.run_module("jsonpath.__main__", run_name="__main__")
         except SystemExit as e:
             code = e.code
             if code is None:
@@ -69,6 +91,8 @@ def run_cli(argv: List[str], stdin_bytes: bytes, fs: SimFS) -> ProcResult:
             status = 120
     finally:
         sys.argv, sys.stdin, sys.stdout, sys.stderr = saved
+        builtins.open = real_open
+        io.open = real_io_open
         if had_open:
             argparse.open = old_open  # type: ignore[attr-defined]
         else:
